@@ -49,6 +49,7 @@ extern "C" int LLVMFuzzerTestOneInput(const uint8_t *data, size_t size) {
       WFError e; wf_check(t, e);
       if (!e.ok()) {
         if (is_export) fail_cb("wf_export", (std::string("an unmutated hwloc export loads into an ill-formed topology: ") + e.msgs[0]).c_str());
+        if (const char *pr = importer_validated_rule(e)) fail_cb("importer_object_check", (std::string("the document loads although it breaks a per-object rule the importer checks before insertion: ") + pr).c_str());
         n_loaded_inconsistent++;   // F-C06-h: the importer does not validate cross-object consistency; counted, battery skipped
       } else {
         n_loaded_ok++;
